@@ -16,7 +16,7 @@ open AmVerif AmVerif.Leb AmVerif.Chunk AmVerif.ChangeCodec
 theorem C10_hash_is_sha256 {limit : Nat} {bs : Bytes} {s : ChangeCodec.Stored} (h : fromBytes limit bs = .ok s) :
     ∃ cks ty data body,
       bs = Consts.MAGIC_BYTES ++ cks ++ [UInt8.ofNat ty] ++ ulebEncode data.length ++ data ∧
-      ((ty = 1 ∧ body = data) ∨ (ty = 2 ∧ Inflate.inflate data = some body)) ∧
+      ((ty = 1 ∧ body = data) ∨ (ty = 2 ∧ Inflate.inflateExact data = some body)) ∧
       s.hash = Sha256.sha256 (1 :: (ulebEncode body.length ++ body)) := by
   obtain ⟨ch, hp, hh, hty, -⟩ := fromBytes_chunk h
   obtain ⟨e, -, -, -, hc⟩ := parseChunk_ok_inv hp
@@ -40,7 +40,7 @@ theorem C10_decoded_hash_is_sha256 {limit : Nat} {bs hash : Bytes} {x : XChange}
     (h : decodeChange limit bs = .ok (hash, x)) :
     ∃ cks ty data body,
       bs = Consts.MAGIC_BYTES ++ cks ++ [UInt8.ofNat ty] ++ ulebEncode data.length ++ data ∧
-      ((ty = 1 ∧ body = data) ∨ (ty = 2 ∧ Inflate.inflate data = some body)) ∧
+      ((ty = 1 ∧ body = data) ∨ (ty = 2 ∧ Inflate.inflateExact data = some body)) ∧
       hash = Sha256.sha256 (1 :: (ulebEncode body.length ++ body)) := by
   unfold decodeChange at h
   split at h
